@@ -80,7 +80,9 @@ def run_C03(tier, seed):
                   "plain and indexed stores, uint/sint keys, two-property keys, 1..5000 keys, whole-store and window indexes. Monitors: "
                   "read-back position = position in the model sorted with the reader's comparison; consecutive keys read back never "
                   "decrease; for every present key (sampled above 120/400) and generated absent neighbours, linear and binary "
-                  "Range::find must both answer exactly the expected position / None. Non-trivial = >= 2 keys sharing a first byte "
+                  "Range::find must both answer exactly the expected position / None. Cases 0..9 are the bounded-exhaustive part: "
+                  "Range::find on EntryRange with an in-memory comparator over ALL 1013 strictly increasing sequences of length <= 8 over "
+                  "10 symbols x every window x probes 0..10 x both modes (487 696 calls, oracle slice::binary_search). Non-trivial = >= 2 keys sharing a first byte "
                   "(arrays) or >= 2 integer keys. Distinct = hash(schema, prefix length, store kind, size class).",
                   assumptions=["key tuples are made unique by the generator (duplicates are outside the property's quantifier)",
                                "binary search is driven through a CompareTrait wrapper answering ordered()==true around the library's PropertyCompare"])
